@@ -25,6 +25,9 @@ def queries(tier):
     Fe = 1 if tier == "quick" else 2     # (every single call is decided with the full F by the call_* queries)
     qs.append(sq("stream_e2e_calls3_F%d" % Fe, "harness/C09_stream.c", defs=["NSTEPS=3", "VS_NFD=2"], faults=Fe, funcs=FUNCS,
                  bounds={"library_calls": 3, "faults_per_call": Fe, "payload_bytes_per_call": 8, "queue_bytes": 8}))
+    # sender closes / frees its socket with data still queued, receiver drains afterwards: nothing lost, then EOF
+    qs.append(sq("stream_close_then_drain_F%d" % F, "harness/C09_close_drain.c", defs=["VS_NFD=2"], faults=F, funcs=FUNCS + ["p_socket_close", "p_socket_free", "p_socket_shutdown"],
+                 bounds={"library_calls": "send, [shutdown], close/free, <= %d receives" % (F + 2), "faults_per_call": F, "sender_timeout": "any int"}))
     # one call from an arbitrary pair state: conduit property, error semantics, SIGPIPE, errno mapping
     for kind, nm in ((1, "send"), (2, "send_to"), (3, "receive"), (4, "receive_from")):
         qs.append(sq("call_%s_F%d" % (nm, F), "harness/C09_call.c", defs=["KIND=%d" % kind], faults=F, funcs=FUNCS,
